@@ -241,6 +241,58 @@ def push_nth_lemma(L):
         L.require(o, veq(L.ex, ds1.items[1], exp), "push appends the cell at the end", cex=cex)
 
 
+def str_slice_lemma(K):
+    """the real slice_str on a text of K arbitrary characters (multi-byte included) and arbitrary isize bounds: the
+    result is the sub-sequence of *characters* [i, j) of the sequence model (negative = from the end, clamped)"""
+    def body(L):
+        from e2.strmodel import mk_text, StrBuf, Text
+        txt, cons = mk_text("s", K)
+        a, b = z3.BitVec("start", 64), z3.BitVec("end", 64)
+        fn = [f for n_, f in L.ex.funcs.items() if n_.endswith("slice_str") and "tests" not in n_][0]
+        L.ex.string_model = True
+        try:
+            outs = L.run(fn, [Ref(Box(txt, name="sbox")), Int(a, 64, True), Int(b, 64, True)], cons, {})
+        finally:
+            L.ex.string_model = False
+        L.witness(outs, lambda o: o.kind == "return", "slice_str returns")
+        kk = z3.BitVecVal(K, 64)
+
+        def idx(t):          # the sequence model's index: negative counts from the end, everything clamped to [0, K]
+            neg = t < 0
+            mag = z3.If(neg, -t, t)
+            magc = z3.If(z3.ULT(mag, kk), mag, kk)
+            return z3.If(neg, kk - magc, magc)
+        i, j = idx(a), idx(b)
+
+        def cex(m):
+            text = "".join(chr(m.eval(c, model_completion=True).as_long()) for c in txt.sym.chars)
+            sv = lambda t: (lambda v: v - (1 << 64) if v >> 63 else v)(m.eval(t, model_completion=True).as_long())
+            ii = max(0, min(K, sv(a) if sv(a) >= 0 else K + sv(a)))
+            jj = max(0, min(K, sv(b) if sv(b) >= 0 else K + sv(b)))
+            exp = text[ii:jj] if jj > ii else ""
+            return {"lines": ["push str " + text, "push int %d" % sv(a), "push int %d" % sv(b), "eval slice", "stack"],
+                    "expect": [("no_panic",), ("last_result_in", ["ok"]), ("top_str_is", exp)]}
+        for o in outs:
+            if o.kind != "return":
+                L.fail(o, "slice_str must not panic: %s" % (o.msg or "")[:80], cex=cex)
+                continue
+            r = o.value
+            if not isinstance(r, StrBuf) or r.chars is None:
+                raise Unsupported("slice_str result %r" % (r,))
+            n = len(r.chars)
+            # the result has n characters on this path: they must be model[i .. i+n) and n must be the model's length
+            L.require(o, z3.If(z3.UGT(j, i), j - i, z3.BitVecVal(0, 64)) == z3.BitVecVal(n, 64), "slice of a string has the length the sequence model gives (in characters)", cex=cex)
+            conds = []
+            for p_ in range(n):
+                for st_ in range(K - n + 1):
+                    pass
+            for st_ in range(0, K - n + 1):
+                conds.append(z3.Implies(i == z3.BitVecVal(st_, 64), z3.And(*[r.chars[p_] == txt.sym.chars[st_ + p_] for p_ in range(n)]) if n else z3.BoolVal(True)))
+            if n:
+                L.require(o, z3.And(*conds), "slice of a string holds exactly the characters [i, j) of the text", cex=cex)
+    return body
+
+
 def run(L, tier, only=None):
     L.ex.path_budget = 4000
     if not only or "ord" in only:
@@ -249,6 +301,9 @@ def run(L, tier, only=None):
         L.lemma("C12 Ord antisymmetry", antisym_lemma)
     if not only or "collect" in only:
         L.lemma("C12 collect takes exactly the visible cells asked for", collect_lemma)
+    if not only or "strslice" in only:
+        for K in ((2, 3) if tier == "quick" else (0, 1, 2, 3, 4)):
+            L.lemma("C12 slice of a string, %d characters" % K, str_slice_lemma(K))
     if not only or "maps" in only:
         L.lemma("C12 insert then get (association list)", map_words_lemma)
         L.lemma("C12 remove drops the key", remove_get_lemma)
